@@ -74,6 +74,39 @@ CHECKS.update({
         design="Part II C09"),
 })
 
+CHECKS.update({
+    "C12": dict(
+        text=("Coq theorems: ChannelUpdater batching delivers, for every send order and block size, never more copied bytes than "
+              "were sent and drops no Size/Error; a loop never reports more than it was asked to copy whatever its outcome; if "
+              "per file the reported bytes stay within the announced size in every prefix then globally sum(Copied) <= "
+              "sum(Size) at every prefix of every interleaving, also after batching. Tied to libxcp by an API probe: real "
+              "ChannelUpdater vs the model's filter (exact), and library copies under the supervisor with updates written to "
+              "fd 9 so they are totally ordered with the data calls (prefix truthfulness, sizes sum, stream closes, "
+              "incomplete => error)."),
+        note=("channel closure after copy() is C07's; crossbeam FIFO/linearizable and AtomicU64::fetch_add atomic are "
+              "library contracts; bs = 0 (division by zero) excluded."),
+        technique="Coq proof of batching filter and prefix accounting + API probe / ptrace-ordered update stream",
+        design="Part II C12"),
+    "C10": dict(
+        text=("Coq theorems over the finalisation action list and kernel metadata rules (fchmod mask, chown clearing set-id "
+              "bits, futimens, xattrs, creation mode): for all modes, times, xattr sets, ids, flag combinations and previous "
+              "destination metadata the requested attributes end up equal to the source's and the suppressed ones untouched; "
+              "ownership no longer costs set-id bits. Correspondence: real copies (root) compared with the model's final "
+              "metadata and action order from the trace; direct lstat/xattr oracle."),
+        note=("after `fix: apply ownership before permissions`. The three kernel rules are modelled functions validated by the "
+              "runs; finalise-after-last-write under all schedules is C06/C18's theorem; atime is not compared."),
+        technique="Coq proof over metadata action model + ptrace trace/lstat correspondence",
+        design="Part II C10"),
+    "C14": dict(
+        text=("Coq theorems: copy_node creates the source's type, mode & 07777 & ~umask and st_rdev for all kinds/modes/umasks/"
+              "device numbers; sockets, FIFOs and character devices are classified Special (never opened), block/unknown are "
+              "errors; an existing entry is replaced unless no-clobber. Correspondence: real mknod runs (CAP_MKNOD) incl. "
+              "majors/minors > 255, umask 0/022/077, existing entries, both drivers; trace shows no open/read of the source."),
+        note="after `fix: copy_node ... own device number`. umask application by mknodat is the kernel's (modelled, validated).",
+        technique="Coq proof over node-creation model + real mknod correspondence under ptrace",
+        design="Part II C14"),
+})
+
 NOT_YET = {}
 
 def main():
